@@ -4,7 +4,7 @@
    Z, positive, Q, nat stay Coq inductives. *)
 From Coq Require Import Extraction ExtrOcamlBasic ExtrOcamlString.
 From Coq Require Import ZArith QArith List String.
-From Pico Require Import Num PyStr Value Entry_E1 Entry_E4 Entry_E3 Entry_E2 Entry_E5a Entry_E5b Entry_E5c.
+From Pico Require Import Num PyStr Value Entry_E1 Entry_E4 Entry_E3 Entry_E2 Entry_E5a Entry_E5b Entry_E5c Entry_E5d.
 Import ListNotations.
 Local Open Scope string_scope.
 
@@ -16,7 +16,8 @@ Definition dispatch (orc : oracle) (name : string) (v : value) : value :=
   match entry_E5a orc name v with Some r => r | None =>
   match entry_E5b orc name v with Some r => r | None =>
   match entry_E5c orc name v with Some r => r | None =>
-  VL [VS "err"; VS "NoSuchEntry"] end end end end end end end.
+  match entry_E5d orc name v with Some r => r | None =>
+  VL [VS "err"; VS "NoSuchEntry"] end end end end end end end end.
 
 
 Extraction "picomodel.ml" dispatch.
